@@ -118,7 +118,7 @@ def register(prop):
          "(encryption v0/v1), 0-2 extra installed keys, label, compression; non-trivial = >=1 variant judged; distinct = distinct (message type, mode, configuration)",
          assumptions=["reactions are compared on decoded plaintext (nonces differ); receivers are pristine instances re-created after every accepted variant"])
 
-    prop("C13", [dict(scn="C13", quick=1200, thorough=100000, wall_quick=150, wall_thorough=2400)],
+    prop("C13", [dict(scn="C13", quick=1200, thorough=100000, wall_quick=150, wall_thorough=2400), dict(scn="C13C", quick=100, thorough=8000, wall_quick=80, wall_thorough=1200)],
          "bench mode: an attacker endpoint injects into a running real node (tickers off): random bytes (packets and streams); grammar-aware hostile messages (inconsistent compound "
          "counts, nesting to depth 2000, compress-in-compress, odd alive fields, msgpack type confusion, CRC headers, stream-only types on the packet path); every truncation, every "
          "single-byte overwrite (3 values) and every bit flip of the first 12 bytes of genuine packets captured from a real sender; genuine streams cut AND stalled after every byte "
@@ -126,7 +126,9 @@ def register(prop):
          "queue bursts; (thorough) an LZW bomb above the decompression cap; configurations label x encryption x GossipVerifyIncoming x SkipInboundLabelCheck x compression x protocol; "
          "oracles: process survives (worker crash = violation), queues/counters within caps at every step, input that does not decode leaves digest/delegates untouched, oversized "
          "declarations refused within two read-ahead buffers, every server-side connection closed within TCPTimeout, no handler goroutine left, listeners still answer a genuine "
-         "ping / TCP ping afterwards; non-trivial = >=1 input injected; distinct = distinct (mode, genuine message, configuration) tuples",
+         "ping / TCP ping afterwards; non-trivial = >=1 input injected; distinct = distinct (mode, genuine message, configuration) tuples. C13C (cluster): a healthy encrypted cluster "
+         "(C04's plans without leaves) is bombarded every 0.5-50 ms with bit-flipped / truncated / overwritten / spliced copies of its own captured ciphertext and random bytes from spoofed "
+         "member addresses; C04's invariants must keep holding at every step (no suspicion, no leave event, health 0), plus event-log, self and health monitors",
          assumptions=["'does not decode' is decided by a harness-side decoder built from the library's own codec functions under the receiver's configuration"])
 
     prop("C09", [dict(scn="C09J", quick=300, thorough=30000, wall_quick=100, wall_thorough=1500), dict(scn="C09P", quick=500, thorough=40000, wall_quick=150, wall_thorough=2400)],
